@@ -312,6 +312,20 @@ fn ser_of<T: Canon>(data: &[&str]) -> (String, Vec<String>) {
             }
             // C04 text path (finite floats only)
             if !want.contains("D7ff") && !want.contains("Dfff") && !want.contains("Dnan") {
+                // every text entry point is the same printer and the same reader
+                if let Ok(s) = serde_lexpr::to_string(&x) {
+                    let mut w: Vec<u8> = Vec::new();
+                    let same_out = serde_lexpr::to_vec(&x).ok().as_deref() == Some(s.as_bytes())
+                        && serde_lexpr::to_writer(&mut w, &x).is_ok() && w == s.as_bytes()
+                        && serde_lexpr::to_string_custom(&x, lexpr::print::Options::default()).ok().as_deref() == Some(s.as_str())
+                        && serde_lexpr::to_vec_custom(&x, lexpr::print::Options::default()).ok().as_deref() == Some(s.as_bytes());
+                    if !same_out { msgs.push(format!("FAIL C04 serde-lexpr text entry points (to_string / to_vec / to_writer / *_custom) disagree on {:?}", s)); }
+                    let a = serde_lexpr::from_str::<T>(&s).ok().map(|y| enc_of(&y));
+                    let b = serde_lexpr::from_slice::<T>(s.as_bytes()).ok().map(|y| enc_of(&y));
+                    let c = serde_lexpr::from_reader::<T>(s.as_bytes()).ok().map(|y| enc_of(&y));
+                    let d = serde_lexpr::from_str_custom::<T>(&s, lexpr::parse::Options::default()).ok().map(|y| enc_of(&y));
+                    if a != b || a != c || a != d { msgs.push(format!("FAIL C04 serde-lexpr from_str / from_slice / from_reader / from_str_custom disagree on {:?}", s)); }
+                }
                 match serde_lexpr::to_string(&x) {
                     Ok(s) => match catch_unwind(AssertUnwindSafe(|| serde_lexpr::from_str::<T>(&s))) {
                         Ok(Ok(y)) => { let got = enc_of(&y); if !data_floats_close(&want, &got) { msgs.push(format!("FAIL C04 text round trip changed the data: {} -> {:?} -> {}", want, s, got)); } }
